@@ -154,7 +154,8 @@ CHECKS = {
         "rule": "one case = a writer appending 0..6 metadata and 0..6 message entries (interleaved by the seed) to a multi-member "
                 "group, a second replica receiving them entry by entry, in one batch afterwards, or mixed (simulator-chosen "
                 "deliveries), then every (since, until, reverse) combination over all entries plus the open end and an unknown "
-                "identifier listed on both replicas and both stores; non-trivial = at least one simulator-chosen delivery; distinct = "
+                "identifier listed on both replicas and both stores, through ListEvents and again through the GroupMetadataList / "
+                "GroupMessageList streams (until_now for the open end); non-trivial = at least one simulator-chosen delivery; distinct = "
                 "distinct hash of the append/delivery trace. scheduler_or_event_steps counts individual listings checked.",
         "required_probes": ["invalid_range", "all_ranges_checked", "midway_listing"],
         "assumptions": COMMON_ASSUMPTIONS + ["the GroupMetadataList/GroupMessageList RPC wrappers are not driven; they pass since/until/reverse through unchanged"],
@@ -252,18 +253,25 @@ CHECKS = {
         "assumptions": COMMON_ASSUMPTIONS + ["one bubble has one clock: no clock skew between the two peers"],
     },
     "C06": {
-        "pkg": "internal/handshake",
-        "test": "TestVerifC06",
         "level": "fault_enumeration",
-        "quick": {"procs": 32, "checks_per_proc": 1500},
-        "thorough": {"procs": 64, "checks_per_proc": 15000},
+        "parts": [
+            {"pkg": "internal/handshake", "test": "TestVerifC06",
+             "quick": {"procs": 32, "checks_per_proc": 1500}, "thorough": {"procs": 64, "checks_per_proc": 15000}},
+            {"pkg": ".", "test": "TestVerifC06R", "proc_timeout": "60m",
+             "quick": {"procs": 16, "checks_per_proc": 60}, "thorough": {"procs": 32, "checks_per_proc": 800}},
+        ],
         "rule": "one case = 2-4 honest accounts, one adversary account and 1-6 sessions, each drawn from the attack catalogue: faithful "
                 "relay; one fault on a drawn frame and direction (bit flip, truncation, oversize, drop, duplicate, negative "
                 "acknowledge, low-order/non-canonical hello, reflection); the adversary as legitimate responder / requester under its "
                 "own key; the two-phase low-order relay attack with each of 12 degenerate points; wrong target key, foreign identity and "
-                "target key types; replay of any frame recorded earlier in the run at a drawn position. non-trivial = always (every "
+                "target key types; replay of any frame recorded earlier in the run at a drawn position. part 2: one case = a responder "
+                "node with its account group open and 1-5 sessions of the real requester side against the real "
+                "handleIncomingRequest over a simulated stream (untouched; one fault on a handshake frame; contact message altered in "
+                "flight; adversary as requester with contact variants; recorded frame replayed), observing the incoming-request "
+                "events appended. non-trivial = always (every "
                 "run has the adversary on the path); distinct = distinct hash of the session trace.",
-        "required_probes": ["honest_handshake_completed", "responder_accepted", "requester_succeeded", "victim_signature_over_constant_obtained"],
+        "required_probes": ["honest_handshake_completed", "responder_accepted", "requester_succeeded", "victim_signature_over_constant_obtained",
+                            "honest_request_recorded", "mismatching_contact_refused"],
         "assumptions": COMMON_ASSUMPTIONS + ["the adversary is symbolic: it can do anything with bytes and keys it holds, it cannot forge Ed25519 signatures or open boxes without the key"],
     },
     "C12": {
